@@ -96,9 +96,7 @@ func digestDB(d db.DB) string {
 	defer it.Release()
 	n := 0
 	for it.Next() {
-		if it.Value() == nil {
-			continue
-		}
+		// every entry the iterator delivers counts (deleted entries are skipped by the store's own iterator, 522bff7)
 		var l [8]byte
 		k, v := it.Key(), it.Value()
 		l[0], l[1], l[2], l[3] = byte(len(k)>>24), byte(len(k)>>16), byte(len(k)>>8), byte(len(k))
